@@ -56,8 +56,10 @@ class FileConfig:
         self.data[key] = try_conv(value, CONVERTERS)
 
     def __delitem__(self, key):
-        if key in self.data:
-            del self.data[key]
+        # Only keys stored in the file can be removed; a key that merely has
+        # a default (or does not exist at all) is left alone.
+        if key in self.data.maps[0]:
+            del self.data.maps[0][key]
 
     def __len__(self):
         return len(self.data)
@@ -70,9 +72,10 @@ class FileConfig:
 
     def get_namespace(self, ns):
         res = {}
+        prefix = ns + "."
         for k, v in self.items():
-            if k.startswith(ns):
-                new_key = k[len(ns) + 1 :]
+            if k.startswith(prefix):
+                new_key = k[len(prefix) :]
                 res[new_key] = v
         return res
 
